@@ -44,9 +44,19 @@ def build_cases(tier, seed):
         cs += fam.prof_list(fam.perm_family(5), 2, (1, 2), c5)
         famtxt = ("Prof(Rank(3),3,{1,2,1/2,3/2}) + Prof(Rank(4),3,{1}) + Prof(Rank(4),2,{1,2,3}) + Prof(Perm(5),3,{1}) + "
                   "Prof(Perm(5),2,{1,2})")
+    # uncondensed profiles: the same ranking on several ballots with different weights (ballots are not merged first)
+    base = fam.prof_list(R3, 2, (1, 2), c3)
+    rep = []
+    for (cands_, bl) in (base if tier != "quick" else base[::2]):
+        rep.append((cands_, bl + ((bl[0][0], 5),)))
+        rep.append((cands_, ((bl[-1][0], 3),) + bl))
+    b4 = fam.prof_list(R4, 2, (1, 2), c4)
+    for (cands_, bl) in b4[:: (40 if tier == "quick" else 8)]:
+        rep.append((cands_, bl + ((bl[0][0], 5),)))
+    cs += rep
     _CASES = cs
     meta = {
-        "family": famtxt + " ; PairwiseComparisonGraph (margins, tiers, Condorcet winner), DominatingSets, CondoBorda x m x all paths",
+        "family": famtxt + " + uncondensed variants (a ranking repeated on another ballot with a different weight) ; PairwiseComparisonGraph (margins, tiers, Condorcet winner), DominatingSets, CondoBorda x m x all paths",
         "assumptions": ["untied ballots only (the pairwise rules are not claimed on tied positions)",
                         "small scope n<=4 (quick) / n<=5 complete rankings (thorough)"],
     }
